@@ -255,6 +255,9 @@ def malformed_probe(job):
     rep = re.search(r"(ERROR: AddressSanitizer: [^\n]*|runtime error: [^\n]*|AddressSanitizer:DEADLYSIGNAL)", errs)
     if rep:
         problems.append("sanitizer report: " + rep.group(1))
+    elif rc == "timeout" and len(data) < 4000:
+        # (a few thousand bytes are handled in milliseconds: 45 seconds without an end is non-termination)
+        problems.append("flex does not terminate: no end after 45 seconds on an input of %d bytes" % len(data))
     elif rc == "timeout":
         note = "timeout"
     elif isinstance(rc, int) and (rc < 0 or rc >= 128):
@@ -298,6 +301,9 @@ CORPUS = [
     ("option-value-empty", b'%option prefix=""\n%option outfile=""\n%%\na {}\n', []),
     ("mutually-recursive-definitions", b'A {B}x\nB {A}y\n%%\n{A} {}\n', []),                 # fixed 6a0dffb
     ("self-recursive-definition", b'A {A}\n%%\n{A} {}\n', ["-CF"]),
+    ("self-recursive-definition-lex-compat", b'A {A}\n%%\n{A}x {}\n', ["-l"]),                # fixed 54ef64a (flex -l never ended)
+    ("mutually-recursive-definitions-lex-compat", b'A b{B}\nB a{A}|c\n%%\n{A}x {}\n', ["-l"]),
+    ("self-recursive-definition-posix-compat", b'A {A}\n%%\n{A}x {}\n', ["-X"]),
     ("long-string-in-code-block", b'%option noyywrap\n%{\nstatic const char *big = "' + b'x' * 6000 + b'";\n%}\n%%\na {}\n', []),
     ("long-expression-in-action", b'%option noyywrap\n%%\na { int v = 0' + b' + 1' * 4000 + b'; (void) v; }\n', []),
     ("long-comment-in-action", b'%option noyywrap\n%%\na { /* ' + b'=' * 20000 + b' */ }\n', ["-Cf"]),
@@ -323,7 +329,7 @@ def main(tier):
     nob, ngood, details = engine.obligations(ck, "Properties_C16.v")
     assumptions = ["PARTIAL: robustness on all input files cannot be proved without a model of the whole of flex; it is explored with generated "
                    "malformed specifications against an ASan/UBSan build of flex rebuilt from /repo",
-                   "timeouts (45 s) on huge-but-legal inputs are counted as inconclusive, not as violations",
+                   "timeouts (45 s) on inputs of 4000 bytes and more are counted as inconclusive, not as violations; on smaller inputs they are non-termination",
                    "the exit-status fold is proved for the modelled handler (coq/ExitStatus.v); that each stage exits non-zero on an incomplete "
                    "output is checked by write-failure injection on every output"]
     with Scratch("c16") as scratch:
